@@ -30,5 +30,19 @@ ThinPeerItems == {Pkt(ConnResP(Num1)), Pkt(CreateResP(Num2)), Pkt(CreateResP(Num
 ThinWaitKinds == {"ConnectAppResPacket", "CreateStreamResPacket"}
 ThinWaitTypes == {9}
 
+\* typed waits for the control packet types (and the command types) while responses, duplicates and unsolicited
+\* responses arrive before the awaited packet
+ScsP           == [k |-> "scs", hi |-> 0, lo |-> 4096]
+PeerBwP        == [k |-> "peerbw", hi |-> 38, lo |-> 9632, limit |-> 2]
+CtlRequests  == {ConnectP(Num1), CreateP(Num2)}
+CtlPeerItems == {Pkt(ConnResP(Num1)), Pkt(CreateResP(Num2)), Pkt(WinAckP), Pkt(UcP), Pkt(ScsP), Pkt(PeerBwP), Pkt(PublishP(Num3))}
+CtlWaitKinds == {"SetChunkSize", "UserControl", "WindowAcknowledgementSize", "SetPeerBandwidth", "PublishPacket", "CreateStreamResPacket"}
+CtlWaitTypes == {}
+CtlQPeerItems == CtlPeerItems \ {Pkt(PublishP(Num3))}
+CtlQWaitKinds == CtlWaitKinds \ {"PublishPacket"}
+\* the same, thinner, for the model-checking runs
+Ctl2PeerItems == {Pkt(CreateResP(Num2)), Pkt(WinAckP), Pkt(PeerBwP)}
+Ctl2WaitKinds == {"WindowAcknowledgementSize", "SetPeerBandwidth", "CreateStreamResPacket"}
+
 Emit == Done => PrintT(<<"CASE", ToJson([steps |-> hist])>>)
 =============================================================================
